@@ -68,8 +68,25 @@ Proof.
 Qed.
 
 (* ---------- the core protocol: open tmp, write chunks, close, rename over final, chmod ---------- *)
-Definition core_ops (tmp final : str) (chunks : list (list N)) : list op :=
-  Open tmp :: map (Write tmp) chunks ++ [Close tmp; Rename tmp final; Chmod final].
+Definition core_ops (mv : op) (tmp final : str) (chunks : list (list N)) : list op :=
+  Open tmp :: map (Write tmp) chunks ++ [Close tmp; mv; Chmod final].
+
+(* a move operation that behaves like rename(tmp, final) whenever that rename succeeds *)
+Definition moves (mv : op) (tmp final : str) : Prop :=
+  forall s e, failed s = false -> names s tmp = Some e -> names s final <> Some D -> tmp <> final ->
+    step s mv = mkst (upd (upd (names s) final (Some e)) tmp None) (data s) (next s) (handle s) false (followed s).
+
+Lemma moves_rename : forall tmp final, moves (Rename tmp final) tmp final.
+Proof.
+  intros tmp final s e Hf Ha Hb Hne. unfold step. rewrite Hf. unfold step_rename. rewrite Ha.
+  rewrite (str_eqb_neq tmp final Hne). destruct (names s final) as [[i|t|]|]; try reflexivity. contradiction.
+Qed.
+
+Lemma moves_rename_else_unlink : forall tmp final c, moves (RenameElseUnlink tmp final c) tmp final.
+Proof.
+  intros tmp final c s e Hf Ha Hb Hne. unfold step. rewrite Hf. unfold step_rename. rewrite Ha.
+  rewrite (str_eqb_neq tmp final Hne). destruct (names s final) as [[i|t|]|]; try reflexivity. contradiction.
+Qed.
 Definition err_ops (tmp : str) (chunks : list (list N)) : list op :=
   Open tmp :: map (Write tmp) chunks ++ [Close tmp; Unlink tmp].
 
@@ -78,15 +95,22 @@ Ltac names_neq :=
   | |- ?a <> ?b => (assumption || (apply not_eq_sym; assumption))
   end.
 
-Lemma core_prefix : forall s0 tmp final chunks k,
+Ltac red_close :=
+  match goal with
+  | |- context [step ?s2 (Close ?p)] =>
+    let c := eval cbn [step failed handle names data next followed] in (step s2 (Close p)) in
+    change (step s2 (Close p)) with c
+  end.
+
+Lemma core_prefix : forall mv s0 tmp final chunks k, moves mv tmp final -> no_dir_at s0 final ->
   tmp <> final -> wf_st s0 -> unshared s0 tmp -> clean s0 -> no_link_at s0 tmp -> no_dir_at s0 tmp ->
-  let s := run s0 (firstn k (core_ops tmp final chunks)) in
+  let s := run s0 (firstn k (core_ops mv tmp final chunks)) in
   (look s final = look s0 final \/ look s final = VFile (concat chunks)) /\
   followed s = false /\ failed s = false /\
   (forall q, q <> tmp -> q <> final -> look s q = look s0 q) /\
   ((List.length chunks + 3 <= k)%nat -> look s final = VFile (concat chunks) /\ names s tmp = None).
 Proof.
-  intros s0 tmp final chunks k Hne Hwf Hun Hcl Hnl Hnd.
+  intros mv s0 tmp final chunks k Hmv Hndf Hne Hwf Hun Hcl Hnl Hnd.
   destruct k as [|k'].
   { cbn [firstn run fold_left]. destruct Hcl as [Hf Hfl]. repeat split; auto. intros; lia. intros; lia. }
   unfold core_ops. cbn [firstn]. rewrite run_cons.
@@ -121,9 +145,9 @@ Proof.
     + intros; lia.
   - (* renamed *)
     assert (Hall : firstn k' chunks = chunks) by (apply firstn_all2; lia). rewrite Hall.
-    cbn [run fold_left step failed handle names data next followed]. rewrite Hnt.
-    rewrite (str_eqb_neq tmp final Hne).
-    cbn [run fold_left step failed handle names data next followed].
+    cbn [run fold_left]. red_close.
+    rewrite (Hmv _ (F i)); cbn [failed names data next handle followed];
+      [|reflexivity|exact Hnt|rewrite (Hnq final) by names_neq; exact Hndf|exact Hne].
     assert (Hfin : look (mkst (upd (upd n final (Some (F i))) tmp None) (updn d i (d i ++ [] ++ concat chunks)) nx None false false) final
                    = VFile (concat chunks)).
     { unfold look. cbn [names data]. rewrite upd_other by names_neq. rewrite upd_same, updn_same, Hdi. reflexivity. }
@@ -134,9 +158,10 @@ Proof.
   - (* chmod done (and anything beyond) *)
     assert (Hall : firstn k' chunks = chunks) by (apply firstn_all2; lia). rewrite Hall.
     assert (Hfn : firstn m (@nil op) = []) by (destruct m; reflexivity). rewrite Hfn.
-    cbn [run fold_left step failed handle names data next followed]. rewrite Hnt.
-    rewrite (str_eqb_neq tmp final Hne).
-    cbn [run fold_left step failed handle names data next followed].
+    cbn [run fold_left]. red_close.
+    rewrite (Hmv _ (F i)); cbn [failed names data next handle followed];
+      [|reflexivity|exact Hnt|rewrite (Hnq final) by names_neq; exact Hndf|exact Hne].
+    cbn [step failed handle names data next followed].
     rewrite (upd_other _ _ tmp None final) by names_neq. rewrite upd_same.
     assert (Hfin : look (mkst (upd (upd n final (Some (F i))) tmp None) (updn d i (d i ++ [] ++ concat chunks)) nx None false false) final
                    = VFile (concat chunks)).
@@ -183,6 +208,53 @@ Proof.
     + intros _. cbn [names]. apply upd_same.
 Qed.
 
+(* the final name is an existing DIRECTORY: rename(2) fails, the temporary is removed, the exception is re-raised *)
+Lemma publish_fail_prefix : forall s0 tmp final chunks k,
+  tmp <> final -> names s0 final = Some D ->
+  wf_st s0 -> unshared s0 tmp -> clean s0 -> no_link_at s0 tmp -> no_dir_at s0 tmp ->
+  let s := run s0 (firstn k (core_ops (RenameElseUnlink tmp final tmp) tmp final chunks)) in
+  (forall q, q <> tmp -> look s q = look s0 q) /\ followed s = false /\
+  ((List.length chunks + 3 <= k)%nat -> names s tmp = None /\ failed s = true).
+Proof.
+  intros s0 tmp final chunks k Hne Hfd Hwf Hun Hcl Hnl Hnd.
+  destruct k as [|k'].
+  { cbn [firstn run fold_left]. destruct Hcl as [Hf Hfl]. repeat split; auto; intros; lia. }
+  unfold core_ops. cbn [firstn]. rewrite run_cons.
+  destruct (open_facts s0 tmp Hwf Hun Hcl Hnl Hnd) as (i & Hi). cbv zeta in Hi.
+  remember (step s0 (Open tmp)) as s1 eqn:Es1. clear Es1.
+  destruct s1 as [n d nx h f fl]. cbn [names data handle failed followed] in Hi.
+  destruct Hi as (Hnt & Hnq & Hdj & Hdi & Hh & Hf & Hfl & Hfresh). subst h f fl.
+  rewrite firstn_app, run_app, firstn_map, run_writes, map_length. cbn [app].
+  assert (Hnfin : n final = Some D) by (rewrite (Hnq final) by names_neq; exact Hfd).
+  assert (Hlookq : forall dd, (forall j, j <> i -> dd j = d j) ->
+            forall nn q, q <> tmp -> nn q = n q ->
+            forall hh ff, look (mkst nn dd nx hh ff false) q = look s0 q).
+  { intros dd Hdd nn q Hq Hnn hh ff. apply look_frame; cbn [names data].
+    - rewrite Hnn. apply Hnq. exact Hq.
+    - intros j Hj. assert (j <> i) by (intros ->; apply (Hfresh q Hq); exact Hj).
+      rewrite Hdd by assumption. apply Hdj. assumption. }
+  destruct (k' - List.length chunks)%nat as [|[|m]] eqn:Em; cbn [firstn].
+  - cbn [run fold_left]. split; [|split; [reflexivity|intros; lia]].
+    intros q Hq. apply (Hlookq d (fun j _ => eq_refl) n q Hq eq_refl).
+  - cbn [run fold_left step failed handle names data next followed].
+    split; [|split; [reflexivity|intros; lia]].
+    intros q Hq. apply (Hlookq _ (fun j Hj => updn_other _ _ _ _ Hj) n q Hq eq_refl).
+  - cbn [run fold_left]. red_close.
+    set (DD := updn d i (d i ++ concat (firstn k' chunks))).
+    assert (Hreu : step (mkst n DD nx None false false) (RenameElseUnlink tmp final tmp)
+                   = mkst (upd n tmp None) DD nx None true false).
+    { unfold step. cbn [failed]. unfold step_rename. cbn [names]. rewrite Hnt, Hnfin.
+      cbn [fail failed names data next handle followed]. rewrite ?Hnt. reflexivity. }
+    rewrite Hreu.
+    assert (Hrest : fold_left step (firstn m [Chmod final]) (mkst (upd n tmp None) DD nx None true false)
+                    = mkst (upd n tmp None) DD nx None true false).
+    { destruct m as [|m]; [reflexivity|]. cbn [firstn]. destruct m; reflexivity. }
+    rewrite Hrest.
+    split; [|split; [reflexivity|]].
+    + intros q Hq. apply (Hlookq DD (fun j Hj => updn_other _ _ _ _ Hj)); [exact Hq|]. apply upd_other. exact Hq.
+    + intros _. cbn [names failed]. split; [apply upd_same|reflexivity].
+Qed.
+
 (* ---------- `if tmp.islink(): tmp.remove()` establishes the hypothesis of the core protocol ---------- *)
 Lemma unlink_if_link_facts : forall s0 tmp, wf_st s0 -> unshared s0 tmp -> clean s0 -> no_dir_at s0 tmp ->
   let s := step s0 (UnlinkIfLink tmp) in
@@ -215,7 +287,8 @@ Proof. reflexivity. Qed.
 (* ---------- the translated operation lists are these protocols ---------- *)
 Lemma upload_ops_done : forall final blocks,
   upload_ops final blocks Done =
-    UnlinkIfLink (final ++ putfile_tmp_ext) :: core_ops (final ++ putfile_tmp_ext) final blocks.
+    UnlinkIfLink (final ++ putfile_tmp_ext) ::
+    core_ops (RenameElseUnlink (final ++ putfile_tmp_ext) final (final ++ putfile_tmp_ext)) (final ++ putfile_tmp_ext) final blocks.
 Proof. intros. unfold upload_ops, interps, core_ops. cbn [putfile_main putfile_done flat_map interp pth app]. rewrite !app_nil_r. reflexivity. Qed.
 
 Lemma upload_ops_err : forall final blocks,
@@ -228,7 +301,9 @@ Proof. reflexivity. Qed.
 
 Lemma registry_ops_core : forall basedir chunks,
   registry_ops basedir chunks =
-    firstn (List.length chunks + 3) (core_ops (registry_final basedir ++ registry_tmp_ext) (registry_final basedir) chunks).
+    firstn (List.length chunks + 3)
+      (core_ops (Rename (registry_final basedir ++ registry_tmp_ext) (registry_final basedir))
+                (registry_final basedir ++ registry_tmp_ext) (registry_final basedir) chunks).
 Proof.
   intros. unfold registry_ops, interps, core_ops. cbn [registry_steps flat_map interp pth app].
   replace (List.length chunks + 3)%nat with (S (List.length chunks + 2)) by lia. cbn [firstn]. f_equal.
@@ -279,35 +354,67 @@ Proof.
 Qed.
 
 (* ---------- upload: atomic publication, no symlink is followed, nothing else changes ---------- *)
-Theorem upload_atomic : forall s0 final blocks k,
+Theorem upload_atomic : forall s0 final blocks k, no_dir_at s0 final ->
   wf_st s0 -> unshared s0 (final ++ putfile_tmp_ext) -> clean s0 -> no_dir_at s0 (final ++ putfile_tmp_ext) ->
   let s := run s0 (firstn k (upload_ops final blocks Done)) in
   (look s final = look s0 final \/ look s final = VFile (concat blocks)) /\
   followed s = false /\ failed s = false /\
   (forall q, q <> final ++ putfile_tmp_ext -> q <> final -> look s q = look s0 q).
 Proof.
-  intros s0 final blocks k Hwf Hun Hcl Hnd. rewrite upload_ops_done.
+  intros s0 final blocks k Hndf Hwf Hun Hcl Hnd. rewrite upload_ops_done.
   destruct k as [|k]; [cbn [firstn run fold_left]; destruct Hcl; repeat split; auto|].
   cbn [firstn]. rewrite run_cons.
   destruct (unlink_if_link_facts s0 _ Hwf Hun Hcl Hnd) as (Hwf' & Hun' & Hcl' & Hnl' & Hnd' & Hlk). cbv zeta in *.
-  pose proof (core_prefix _ _ final blocks k (tmp_ext_neq final) Hwf' Hun' Hcl' Hnl' Hnd') as (Ha & Hb & Hc & Hd & _).
+  assert (Hndf' : no_dir_at (step s0 (UnlinkIfLink (final ++ putfile_tmp_ext))) final).
+  { unfold no_dir_at in *. intros E. pose proof (Hlk final (not_eq_sym (tmp_ext_neq final))) as Hl. unfold look in Hl.
+    rewrite E in Hl. destruct (names s0 final) as [[?|?|]|]; try discriminate. apply Hndf. reflexivity. }
+  pose proof (core_prefix _ _ _ final blocks k (moves_rename_else_unlink (final ++ putfile_tmp_ext) final (final ++ putfile_tmp_ext)) Hndf' (tmp_ext_neq final) Hwf' Hun' Hcl' Hnl' Hnd')
+    as (Ha & Hb & Hc & Hd & _).
   cbv zeta in *. rewrite (Hlk final) in Ha by (apply not_eq_sym, tmp_ext_neq).
   split; [exact Ha|split; [exact Hb|split; [exact Hc|]]].
   intros q Hq Hq2. rewrite (Hd q Hq Hq2). apply Hlk. exact Hq.
 Qed.
 
-Theorem upload_completes : forall s0 final blocks,
+Theorem upload_completes : forall s0 final blocks, no_dir_at s0 final ->
   wf_st s0 -> unshared s0 (final ++ putfile_tmp_ext) -> clean s0 -> no_dir_at s0 (final ++ putfile_tmp_ext) ->
   let s := run s0 (upload_ops final blocks Done) in
   look s final = VFile (concat blocks) /\ names s (final ++ putfile_tmp_ext) = None /\ failed s = false.
 Proof.
-  intros s0 final blocks Hwf Hun Hcl Hnd. rewrite upload_ops_done. rewrite run_cons.
+  intros s0 final blocks Hndf Hwf Hun Hcl Hnd. rewrite upload_ops_done. rewrite run_cons.
   destruct (unlink_if_link_facts s0 _ Hwf Hun Hcl Hnd) as (Hwf' & Hun' & Hcl' & Hnl' & Hnd' & Hlk). cbv zeta in *.
-  pose proof (core_prefix _ _ final blocks (List.length (core_ops (final ++ putfile_tmp_ext) final blocks))
-                (tmp_ext_neq final) Hwf' Hun' Hcl' Hnl' Hnd') as (_ & _ & Hc & _ & He).
+  assert (Hndf' : no_dir_at (step s0 (UnlinkIfLink (final ++ putfile_tmp_ext))) final).
+  { unfold no_dir_at in *. intros E. pose proof (Hlk final (not_eq_sym (tmp_ext_neq final))) as Hl. unfold look in Hl.
+    rewrite E in Hl. destruct (names s0 final) as [[?|?|]|]; try discriminate. apply Hndf. reflexivity. }
+  pose proof (core_prefix _ _ _ final blocks
+                (List.length (core_ops (RenameElseUnlink (final ++ putfile_tmp_ext) final (final ++ putfile_tmp_ext))
+                                       (final ++ putfile_tmp_ext) final blocks))
+                (moves_rename_else_unlink (final ++ putfile_tmp_ext) final (final ++ putfile_tmp_ext)) Hndf' (tmp_ext_neq final) Hwf' Hun' Hcl' Hnl' Hnd') as (_ & _ & Hc & _ & He).
   cbv zeta in *. rewrite firstn_all in *.
   destruct He as [H1 H2]; [unfold core_ops; cbn [List.length]; rewrite app_length, map_length; cbn [List.length]; lia|].
   auto.
+Qed.
+
+(* the upload was received completely but cannot be published because the final name is a directory: nothing appears
+   under the final name (it stays the directory), no other entry changes, and once the failure path has run the
+   temporary is gone and the call fails *)
+Theorem upload_publish_failure : forall s0 final blocks k, names s0 final = Some D ->
+  wf_st s0 -> unshared s0 (final ++ putfile_tmp_ext) -> clean s0 -> no_dir_at s0 (final ++ putfile_tmp_ext) ->
+  let s := run s0 (firstn k (upload_ops final blocks Done)) in
+  (forall q, q <> final ++ putfile_tmp_ext -> look s q = look s0 q) /\ followed s = false /\
+  ((List.length (upload_ops final blocks Done) <= k)%nat -> names s (final ++ putfile_tmp_ext) = None /\ failed s = true).
+Proof.
+  intros s0 final blocks k Hfd Hwf Hun Hcl Hnd. rewrite upload_ops_done.
+  destruct k as [|k]; [cbn [firstn run fold_left]; destruct Hcl; repeat split; auto; cbn [List.length] in *; lia|].
+  cbn [firstn]. rewrite run_cons.
+  destruct (unlink_if_link_facts s0 _ Hwf Hun Hcl Hnd) as (Hwf' & Hun' & Hcl' & Hnl' & Hnd' & Hlk). cbv zeta in *.
+  assert (Hfd' : names (step s0 (UnlinkIfLink (final ++ putfile_tmp_ext))) final = Some D).
+  { pose proof (Hlk final (not_eq_sym (tmp_ext_neq final))) as Hl. unfold look in Hl. rewrite Hfd in Hl.
+    destruct (names (step s0 (UnlinkIfLink (final ++ putfile_tmp_ext))) final) as [[?|?|]|]; try discriminate. reflexivity. }
+  pose proof (publish_fail_prefix _ _ final blocks k (tmp_ext_neq final) Hfd' Hwf' Hun' Hcl' Hnl' Hnd') as (Ha & Hb & Hc).
+  cbv zeta in *. split; [|split; [exact Hb|]].
+  - intros q Hq. rewrite (Ha q Hq). apply Hlk. exact Hq.
+  - intros Hk. apply Hc. unfold core_ops in Hk. cbn [List.length] in Hk. rewrite app_length, map_length in Hk.
+    cbn [List.length] in Hk. lia.
 Qed.
 
 (* an upload that ends in a source error or a disconnect, and any crash during it: the final name and every other
@@ -344,19 +451,19 @@ Qed.
 Theorem registry_atomic : forall s0 basedir chunks k,
   let final := registry_final basedir in
   let tmp := final ++ registry_tmp_ext in
-  wf_st s0 -> unshared s0 tmp -> clean s0 -> no_link_at s0 tmp -> no_dir_at s0 tmp ->
+  wf_st s0 -> unshared s0 tmp -> clean s0 -> no_link_at s0 tmp -> no_dir_at s0 tmp -> no_dir_at s0 final ->
   let s := run s0 (firstn k (registry_ops basedir chunks)) in
   (look s final = look s0 final \/ look s final = VFile (concat chunks)) /\ failed s = false /\
   (forall q, q <> tmp -> q <> final -> look s q = look s0 q) /\
   ((List.length (registry_ops basedir chunks) <= k)%nat -> look s final = VFile (concat chunks) /\ names s tmp = None).
 Proof.
-  intros s0 basedir chunks k final tmp Hwf Hun Hcl Hnl Hnd.
+  intros s0 basedir chunks k final tmp Hwf Hun Hcl Hnl Hnd Hndf.
   assert (Hne : tmp <> final) by (apply ext_neq; discriminate).
   rewrite registry_ops_core. fold final. fold tmp. rewrite firstn_firstn.
-  pose proof (core_prefix s0 tmp final chunks (Nat.min k (List.length chunks + 3)) Hne Hwf Hun Hcl Hnl Hnd) as (Ha & _ & Hc & Hd & He).
+  pose proof (core_prefix _ s0 tmp final chunks (Nat.min k (List.length chunks + 3)) (moves_rename tmp final) Hndf Hne Hwf Hun Hcl Hnl Hnd) as (Ha & _ & Hc & Hd & He).
   cbv zeta in *. split; [exact Ha|split; [exact Hc|split; [exact Hd|]]].
   intros Hk. apply He.
-  assert (Hl : List.length (firstn (List.length chunks + 3) (core_ops tmp final chunks)) = (List.length chunks + 3)%nat).
+  assert (Hl : List.length (firstn (List.length chunks + 3) (core_ops (Rename tmp final) tmp final chunks)) = (List.length chunks + 3)%nat).
   { apply firstn_length_le. unfold core_ops. cbn [List.length]. rewrite app_length, map_length. cbn [List.length]. lia. }
   rewrite Hl in Hk. lia.
 Qed.
